@@ -228,6 +228,28 @@ def gen_expr(rng: random.Random, names: list[str], depth: int, flags: dict, allo
         else:
             rg = rng.sample(names, min(len(names), rng.randint(1, 3)))
         return ["S", rg, inner]
+    if flags.get("cross_cancel") and rng.random() < 0.5:
+        # fractions whose parts cancel only *across* levels: nothing cancels before the nested fractions are
+        # regrouped, and afterwards numerator and denominator coincide (wholly or in part)
+        def small() -> list:
+            if rng.random() < 0.6:
+                return _gen_atom(rng, names, flags)
+            return ["*", [_gen_atom(rng, names, flags) for _ in range(2)]]
+
+        X, Y, Z = small(), small(), small()
+        pr = lambda r: present(rng, r)  # noqa: E731
+        pat = rng.randrange(6)
+        if pat == 0:
+            return ["/", ["/", ["*", [X, Y]], pr(Y)], pr(X)]
+        if pat == 1:
+            return ["/", X, ["/", ["*", [pr(X), Z]], pr(Z)]]
+        if pat == 2:
+            return ["/", ["/", ["*", [X, Y]], ["*", [pr(Y), Z]]], ["/", pr(X), pr(Z)]]
+        if pat == 3:
+            return ["/", ["*", [X, ["/", Y, Z]]], ["/", ["*", [pr(Y), pr(X)]], pr(Z)]]
+        if pat == 4:
+            return ["*", [["/", ["/", ["*", [X, Y]], pr(Y)], Z], pr(Z)]]
+        return ["/", ["/", ["*", [X, Y, Z]], pr(Y)], ["*", [pr(Z), gen_expr(rng, names, 1, flags, False)]]]
     num = gen_expr(rng, names, depth - 1, flags, allow_zero)
     y = rng.random()
     if flags.get("near_dup") and num[0] in ("P", "PP") and y < 0.4:
@@ -353,6 +375,7 @@ def gen_case(seed: int, s: int) -> dict:
         "near_dup": rng.random() < 0.3,
         "p_pp": rng.choice((0.0, 0.15, 0.5)),
         "pops": ["pi" + str(i) for i in range(1, rng.randint(1, 3) + 1)],
+        "cross_cancel": rng.random() < 0.25,
     }
     depth = rng.choice((1, 2, 2, 3, 3, 4))
     r = gen_expr(rng, names, depth, flags)
